@@ -165,10 +165,8 @@ func SendCase[T any](c *Chan[T], v T) Case  { return Case{ch: c, send: true, val
 func DefaultCase() Case                      { return Case{def: true} }
 
 // Select models a select statement over modelled channels: it is one blocking scheduling point,
-// enabled iff some case is ready (or there is a default). Among several ready cases the first in
-// source order is taken (Go chooses at random; this is an under-approximation that is stated in
-// DESIGN.md — timers, the usual second case, are separate virtual threads, so "timer first" and
-// "other case first" are both explored).
+// enabled iff some case is ready (or there is a default). Which of several ready cases fires is
+// an environment choice (Go chooses at random): every alternative is explored.
 func Select(cases ...Case) int {
 	if !core.Controlled {
 		rc := make([]reflect.SelectCase, len(cases))
@@ -187,24 +185,31 @@ func Select(cases ...Case) int {
 		i, _, _ := reflect.Select(rc)
 		return i
 	}
-	pick := func() int {
-		def := -1
+	var readyBuf [8]int
+	ready := func() (r []int, def int) {
+		def = -1
+		r = readyBuf[:0]
 		for i, c := range cases {
 			if c.def {
 				def = i
 				continue
 			}
 			if !c.ch.isNil() && c.ch.ready(c.send) {
-				return i
+				r = append(r, i)
 			}
 		}
-		return def
+		return
 	}
-	core.Point(core.KSelect, nil, func() bool { return pick() >= 0 })
+	core.Point(core.KSelect, nil, func() bool { r, def := ready(); return len(r) > 0 || def >= 0 })
 	if core.Exiting() {
 		return 0
 	}
-	i := pick()
+	r, def := ready()
+	i := def
+	if len(r) > 0 {
+		// Go picks among the ready cases at random: an environment answer, all explored
+		i = r[core.Choose(len(r))]
+	}
 	if i < 0 {
 		panic("vchan: select with no ready case in a sequential phase (would block forever)")
 	}
